@@ -56,6 +56,8 @@ func (fr *Frame) callNames(common *ssa.CallCommon) []string {
 		if i := strings.Index(k, "."); i >= 0 {
 			names = append(names, k[i+1:])
 		}
+	} else if b, ok := common.Value.(*ssa.Builtin); ok {
+		names = append(names, b.Name())
 	} else {
 		names = append(names, fr.srcName(common.Value))
 	}
@@ -154,6 +156,31 @@ func (fr *Frame) applyCallAnn(a *CallAnn, recv *Val, args []Val, ret *Val, pre, 
 		full := env.evalBool(uf.E)
 		c.top.Reveal[p.Name] = was
 		c.assume(R, tImp(atom, full))
+	}
+	for _, fd := range a.Folds {
+		// fold P(args): the definition of this one instance is proved here, then the atom is available
+		call, ok := fd.E.(*ECall)
+		if !ok {
+			c.fail("fold needs an opaque predicate application")
+		}
+		p, ok := c.W.pures[call.Fun]
+		if !ok || !p.Opaque {
+			c.fail("fold: %s is not an opaque predicate", call.Fun)
+		}
+		if c.top.Reveal == nil {
+			c.top.Reveal = map[string]bool{}
+		}
+		was := c.top.Reveal[p.Name]
+		c.top.Reveal[p.Name] = true
+		for k, cj := range c.splitGoal(env, fd.E) {
+			nm := fmt.Sprintf("at{%s}.fold{%s}", a.Callee, p.Name)
+			if cj.n > 1 {
+				nm = fmt.Sprintf("%s.%d", nm, k+1)
+			}
+			c.oblige("assert", fr.oblName(nm), R, cj.t)
+		}
+		c.top.Reveal[p.Name] = was
+		c.assume(R, env.evalBool(fd.E))
 	}
 	for i, as := range a.Asserts {
 		label := as.Label
